@@ -168,3 +168,17 @@ def gen_c13(tier: str, rng: random.Random) -> Iterator[Dict[str, Any]]:
             sc["opening"] = opening
             sc["variants"] = _pairs(steps, 75 + (60 if together else 0), tier, rng, span=75 + (40 if together else 0))
             yield sc
+            if together:
+                # ... and with a first request that takes longer than the keep-alive timeout: whichever read its
+                # HEADERS came in, it is a request in progress
+                def slow_steps(c, scheme=scheme):
+                    hd = dict(build.h2_headers(1, 1, "GET", toks=[["/slow", "/slow"]], scheme=scheme), with_preface=True)
+                    hd["cuts"] = [c] if c else None
+                    return [hd, {"s": "dt", "d": 0.05}, {"s": "dt", "d": 3.0}, {"s": "go", "app": "1", "n": 1}, {"s": "dt", "d": 0.05}]
+                slow = [["recv_body"], ["gate"]] + build.simple_resp_program(chunks=[3, 4], read_first=False)
+                sc = h2_script([], {"*": slow}, "c13/%s/slow-first-request" % opening, carrier=carrier,
+                               cfg={"keep_alive_timeout": 2.0}, bodies={"1": [1, 0]})
+                sc["manual_preface"] = True
+                sc["opening"] = opening
+                sc["variants"] = _pairs(slow_steps, 75 + 40, "quick", rng, span=75 + 30)
+                yield sc
